@@ -9,7 +9,7 @@ claim("C06", category="model_checking", engine="arraymc",
            "configurations (1,2,3z,3,6 levels; split parity; hash kinds/sizes; several content copies), is decoded with an independent content "
            "codec and every all-synced stripe is recomputed with an independent GF(2^8) generator and compared with the parity bytes addressed "
            "through the recorded split sizes; map sanity is checked on the same state. Exhaustive within the depth bound; all traces are real executions. "
-           "Later additions: operations 'silent' (in-place corruption keeping size and stamp), syncs with an injected read error, sync -E; initial states with silent errors pending; transition oracles after every command (hash kept for DELETED positions, books untouched by rehash/touch); a part where the parity disk runs full in the middle of a history.",
+           "Later additions: operations 'silent' (in-place corruption keeping size and stamp), syncs with an injected read error, sync -E; initial states with silent errors pending; transition oracles after every command (hash kept for DELETED positions, books untouched by rehash/touch); a part where the parity disk runs full in the middle of a history. A part with hash size 2 where a rewritten or new block is made (by enumeration) to have the same reduced hash as the block it replaces or as a marker value.",
       note="trusted: libvp interposition (frozen clock/urandom/statfs), the lab's version store as ground truth for file bytes, vpref.c as field/generator reference; arrays have <=4 disks and 1-2 KiB blocks",
       design="3 C06")
 
@@ -22,7 +22,7 @@ claim("C01", category="model_checking", engine="arraymc",
            "of <=N devices as lost / corrupted with unchanged timestamps / mixed, every rotating per-stripe pattern of N damaged blocks and every single "
            "file, link or directory deletion/truncation; after fix the data trees must equal the sync-time snapshot (bytes, mtime, link targets, "
            "hard-link identity, empty dirs), fix and a following check must report no error, and the C06 parity oracle must hold. "
-           "Later additions: twin files (same size and second, other nanoseconds) with the single-disk damage 'one recorded file moved over another'; rotating damage with truncated file tails; one configuration with persistent inodes (fake UUID); thorough: one configuration run with the start-up self test enabled.",
+           "Later additions: twin files (same size and second, other nanoseconds) with the single-disk damage 'one recorded file moved over another'; rotating damage with truncated file tails; one configuration with persistent inodes (fake UUID); thorough: one configuration run with the start-up self test enabled. The disk that follows a position hole carries empty files, links and empty directories.",
       note="trusted: lab ground truth and libvp; <=4 data disks, 1-2 KiB blocks; corruption shapes only with hash size>=8; the decoder algebra for up to 251 disks is C02/C03's subject",
       design="3 C01")
 
@@ -47,7 +47,7 @@ claim("C05", category="model_checking", engine="arraymc",
            "every recorded file must either carry the bytes of its recorded version (version store narrowed by the recorded hashes of synced "
            "blocks) or be reported unrecoverable with failing exit and summary; nothing unselected or unknown to the content file may be written, and "
            "content files stay untouched. "
-           'Later additions: initial states from interrupted histories (copy partly synced and removed, replaced file not yet in parity, killed sync then rewrite, DELETED records surviving a killed sync, pending file beyond the end of the other disks); a part that loses a hash-less new file together with every subset of parity levels on 3 (thorough 4, z) levels; quick rotates the filters over the outer states.',
+           'Later additions: initial states from interrupted histories (copy partly synced and removed, replaced file not yet in parity, killed sync then rewrite, DELETED records surviving a killed sync, pending file beyond the end of the other disks); a part that loses a hash-less new file together with every subset of parity levels on 3 (thorough 4, z) levels; quick rotates the filters over the outer states. A part with errors recorded by scrub (bad marks) in a file fragmented around another one: every subset of four blocks, fix -e / -e -f / unfiltered.',
       note="damage restricted to the statement's detectable class; a never-synced file the user changed again after it was recorded is outside that class and not judged",
       design="3 C05")
 
@@ -137,7 +137,7 @@ claim("C15", category="model_checking", engine="arraymc",
            "marks, unverified stripes are unchanged; one damage (data, parity, file changed since sync) at every stripe: silent errors are marked bad "
            "without refreshing the time, changed files are never marked bad; exit status fails iff verified damage; scrub -> fix -e -> scrub -p bad at "
            "every stripe clears the mark; 20 default scrubs 11 days apart cover every stripe; the C12 monitor holds on every run. "
-           'Later additions: a real silent error in a stripe shared with a file changed since the sync must still be marked; books (time, never-scrubbed mark) of everything not verified correct must not move, also for wholly pending stripes.',
+           'Later additions: a real silent error in a stripe shared with a file changed since the sync must still be marked; books (time, never-scrubbed mark) of everything not verified correct must not move, also for wholly pending stripes. A second base with an unallocated stripe (quota above the number of dated stripes).',
       note="tie rule among equally old stripes is free; the clock is frozen per command through libvp",
       design="3 C15")
 
@@ -150,7 +150,7 @@ claim("C17", category="model_checking", engine="arraymc",
            "at their recorded sizes must equal the twin's parity byte for byte, recorded sizes must be block multiples not larger than the files, "
            "only the last used split may change size while growing, the C06 oracle (positions read back through the recorded sizes) must hold, and "
            "a limit too small for the data must give a clean refusal that leaves C06 intact. "
-           "Later additions: asymmetric configurations (only one level split, limits computed from the tool's limit formula), every non-empty split of every level lost in turn alone and with a data disk, total length compared with the twin, split file lengths unchanged by a rebuild, per-file limit growing between syncs.",
+           "Later additions: asymmetric configurations (only one level split, limits computed from the tool's limit formula), every non-empty split of every level lost in turn alone and with a data disk, total length compared with the twin, split file lengths unchanged by a rebuild, per-file limit growing between syncs. A fixed-size split lost and fix run with less room than at sync time (refusal or in-place rebuild, never a shifted mapping).",
       note="limits come from the tool's own test seam; <=2 data disks",
       design="3 C17")
 
@@ -164,7 +164,7 @@ claim("C19", category="model_checking", engine="arraymc",
            "not donate hashes. Then the original is lost (alone, and with all parity) and fix / fix -i <dir holding decoys and a true copy> run "
            "with the decoy still in the array: every recorded file ends with bytes matching its recorded hashes or is reported unrecoverable (C05's "
            "oracle), never decoy bytes under the original's identity. "
-           'Later additions: the matrix repeated with reduced hash size, with a silent error in every stripe of the look-alike, with the original removed (look-alike posing as a move) and with the stopped sync -h repeated; stale import for hash-less blocks; inode look-alikes after a UUID change.',
+           'Later additions: the matrix repeated with reduced hash size, with a silent error in every stripe of the look-alike, with the original removed (look-alike posing as a move) and with the stopped sync -h repeated; stale import for hash-less blocks; inode look-alikes after a UUID change. A same-path part: the file rewritten in place / replaced with the same size and seconds but another sub-second part.',
       note="inode-keeping moves are trusted by design; hash size 16",
       design="3 C19")
 
@@ -179,7 +179,7 @@ claim("C20", category="model_checking", engine="arraymc",
            "status -G: per-stripe used / unsynced / bad / rehash / time lines and the has_unsynced / has_unscrubbed / has_rehash / has_bad counters "
            "equal the decode; pool: exactly one link per recorded file and link with the right target, stale links and empty directories removed, "
            "foreign files kept. "
-           'Later additions: recorded state unsynced-head (range-limited sync), hidden names in tree and re-pool, re-pool after a cross-disk move and a share change.',
+           'Later additions: recorded state unsynced-head (range-limited sync), hidden names in tree and re-pool, re-pool after a cross-disk move and a share change. State bad-spread (first, middle, last stripe bad) with the first/last fields of the bad summary compared.',
       note="unambiguity judged on the tagged log; human readable stdout not judged",
       design="3 C20")
 
